@@ -560,7 +560,7 @@ func init() {
 		Name: "C20/tasks",
 		Rule: "peach over 0..500 inputs (list argument or pipeline) with &num-workers in {1,2,3,4,8, omitted, +inf, 10^20} and run-parallel over 0..12 functions; the callback is a harness Go function (given as a function value, through a closure, or a closure using the native break/continue/fail) that follows a generated per-input plan (yield/sleep, 0-3 values, 0-2 byte lines, then nothing/break/fail/continue) and records starts, ends and a running-callback counter; each case is run under 2-3 generated GOMAXPROCS values; for a bound of 1 the same plan is also run through each. run-parallel functions only fail (break/continue/return escaping a function are left out: the reference does not say how they are reported). Non-trivial = at least 2 inputs/functions",
 		Gen:  c20Gen, Check: c20Check, Class: c20Class,
-		Quick: 400, Thorough: 4000, Timeout: 40 * time.Second,
+		Quick: 400, Thorough: 2500, Timeout: 40 * time.Second,
 		Known: []vs.Known[c20Case]{
 			// peach &num-workers=1 {|x| put $x; if (== $x 2) { break } } [1 2 3 4 5]
 			{Key: "C20:bounded-peach-runs-one-more-after-break", Case: c20Case{Mode: "peach", Bound: 1, Cb: 2, Procs: []int{1, 4},
@@ -575,6 +575,6 @@ func init() {
 	vs.Register(vs.Prop[c20Case]{
 		Name: "C20/race", Rule: "the same cases on the -race binary (fewer cases)",
 		Gen: c20Gen, Check: c20Check, Class: c20Class,
-		Quick: 80, Thorough: 600, Timeout: 90 * time.Second, Race: true,
+		Quick: 80, Thorough: 400, Timeout: 90 * time.Second, Race: true,
 	})
 }
